@@ -86,6 +86,12 @@ func (c *conn) hook(ctx context.Context, op, sql string) error {
 				// the server side sees the connection drop: the transaction is rolled back
 				c.s.RollbackTx()
 			}
+			var sf *StmtFault
+			if errors.As(err, &sf) {
+				// the statement failed on the server: an open transaction is now aborted
+				c.s.MarkFailed()
+				return &pgconn.PgError{Severity: "ERROR", Code: sf.Code, Message: "injected: " + sf.Msg}
+			}
 			return err
 		}
 	}
@@ -95,7 +101,13 @@ func (c *conn) hook(ctx context.Context, op, sql string) error {
 // BadConnFault is returned by a CallHook to simulate a dropped connection.
 type BadConnFault struct{ Msg string }
 
-func (e *BadConnFault) Error() string { return "pgsim: connection failure: " + e.Msg }
+func (e *BadConnFault) Error() string { return "injected: connection failure: " + e.Msg }
+
+// StmtFault is returned by a CallHook to make the statement fail with an SQL error
+// (the transaction, if any, becomes aborted as after any failed statement).
+type StmtFault struct{ Code, Msg string }
+
+func (e *StmtFault) Error() string { return "injected: statement failure: " + e.Msg }
 
 func toValues(args []driver.NamedValue) ([]Value, error) {
 	out := make([]Value, len(args))
